@@ -194,8 +194,11 @@ def copy_rule(ctx):
     fc = repo.cls(FIELD)
     f = fc.methods["copy"]
     r.instance(fn=f.qualname)
-    rets = [n for n in ast.walk(f.node) if isinstance(n, ast.Return) and n.value is not None]
-    deep = rets and all(isinstance(n.value, ast.Call) and (dotted(n.value.func) or "") in ("copy.deepcopy", "deepcopy") and n.value.args and norm_text(n.value.args[0]) == "self" for n in rets)
+    from ..flow import Locals
+
+    Lc = Locals(f.node)
+    rets = [Lc.resolve(n.value) for n in ast.walk(f.node) if isinstance(n, ast.Return) and n.value is not None]
+    deep = rets and all(isinstance(v, ast.Call) and (dotted(v.func) or "") in ("copy.deepcopy", "deepcopy") and v.args and norm_text(v.args[0]) == "self" for v in rets)
     if deep:
         r.ok("Field.copy returns copy.deepcopy(self)")
         return
